@@ -12,3 +12,19 @@ package bluemonday
 //@   loop 0 "for _, r := range p.setOfElementsMatchingAllowedWithoutAttrs"
 //@     invariant !(elementName in p.setOfElementsAllowedWithoutAttrs)
 //@     invariant forall j int :: 0 <= j && j <= rangeindex ==> !rmatch(p.setOfElementsMatchingAllowedWithoutAttrs[j], elementName)
+
+//@ func (*bluemonday.Policy).init
+//@   requires wfp(p)
+//@   ensures wfp(p) && p.initialized
+//@   modifies r :: r == p && !p.initialized
+
+//@ func (*bluemonday.Policy).sanitize
+//@   requires wfp(p) && r != nil && w != nil
+//@   requires[C16] !outFailed
+//@   modifies ghost outFailed, outN, outLast, outCount, tzCur, tzPrev, tzErr
+//@   ensures[C16] outFailed ==> result != nil
+//@   ensures[C16] result == nil ==> tzErr == io.EOF
+//@   loop 0 "for {"
+//@     invariant wfp(p) && p.initialized
+//@     invariant skipClosingTag <==> len(closingTagToSkipStack) > 0
+//@     invariant[C16] !outFailed
